@@ -551,6 +551,14 @@ static ASTNode *load_module_internal(const char *module_path, Environment *env, 
             /* without triggering a second parse (fixes nanolang-6h9) */
             return cached_ast;
         }
+
+        /* An entry without an AST is a module that is being loaded further up
+         * the call chain (circular or self import). Loading it again would
+         * recurse without bound; process_imports treats "NULL and cached" as
+         * "already handled". */
+        if (is_module_cached(module_path)) {
+            return NULL;
+        }
         
         /* Mark module as loading to prevent circular imports */
         cache_module(module_path);
